@@ -68,6 +68,13 @@ def main():
         spec = ser.loads(f.read())
     mod = importlib.import_module("ticcmon.checks.%s" % prop.lower())
     res = ShardResult(spec)
+
+    def flush():
+        tmp_ = of + ".tmp"
+        with open(tmp_, "w") as f_:
+            f_.write(ser.dumps(res.to_json()))
+        os.replace(tmp_, of)
+    res.flush = flush
     try:
         if "replay" in spec:
             mod.replay(spec["replay"], res)
